@@ -48,6 +48,10 @@ def extra_values(rnd, n):
         out.append((rnd.choice([0, 1, 2, 3, 10]), vs))
     # directed: two TypedDicts under the same field name in one type (generated class names collide: recorded finding)
     out.append((2, [{"p": {"f": {"a": 1}}, "q": {"f": {"a": 1, "b": 2}}}, {"p": {"f": {"a": 1, "c": 2}}, "q": {"f": {"a": 1, "b": 2}}}]))
+    # directed: keys from which no class name can be derived as they stand (empty key + positional suffix, leading digit)
+    out.append((10, [{"": ({"a": 1}, {"b": 2})}]))
+    out.append((10, [{"1a": ({"a": 1},)}, {"2": {"a": 1}}]))
+    out.append((3, [{"x y": {"a": 1}}, {"9": [{"a": 1}]}]))
     return out
 
 
@@ -197,16 +201,21 @@ def cli_cases(ctx, rnd):
             with open(os.path.join(d, cfgname + ".py"), "w") as f:
                 f.write(CLI_CFG.format(db=db, k=k, ctxdep=ctxdep))
             traces, shapes = [], []
+            rec_k = k + rnd.choice([0, 0, 0, 1, 2])      # the limit in force when the traces were RECORDED
             same_param = rnd.random() < 0.5      # connect(config) and listen(config): same parameter name, different shapes
             for fn, pname in ((fx.connect, "config"), (fx.listen, "config") if same_param else (fx.f, "a"), (fx.K.m, "opts")):
                 wrap = rnd.choice(["plain", "plain", "list", "opt"])      # one container shape per function, so its calls merge
+                if rec_k != k:
+                    wrap = "plain"     # a limit lowered after recording reaches top-level positions only (td_merge_top_limit)
                 small = rnd.random() < 0.6                                # every call's dict fits the limit on its own
                 for _ in range(rnd.choice([1, 2, 3])):
                     nk = (rnd.choice([1, k, max(1, k - 1)]) if small else rnd.choice([1, k, k + 1])) if k > 0 else rnd.randrange(1, 4)
+                    if rec_k != k:
+                        nk = rnd.randrange(1, rec_k + 1)
                     keys = rnd.sample(["a", "b", "c", "d"], max(1, min(4, nk)))
                     dct = {kk: rnd.choice(atoms) for kk in keys}
                     val = {"plain": dct, "list": [dct], "opt": dct}[wrap]
-                    args = {pname: get_type(val, k)}
+                    args = {pname: get_type(val, rec_k)}
                     if fn is fx.K.m:
                         pass
                     traces.append(CallTrace(fn, args, type(None)))
@@ -220,7 +229,7 @@ def cli_cases(ctx, rnd):
             except Exception as e:
                 rc, se = 99, io.StringIO(f"{type(e).__name__}: {e}")
             stub = so.getvalue()
-            rec = {"k": k, "limit_only_inside_cli_context": ctxdep, "flags": flags, "shapes": shapes, "rc": rc, "stub": stub[:3000],
+            rec = {"k": k, "recorded_under": rec_k, "limit_only_inside_cli_context": ctxdep, "flags": flags, "shapes": shapes, "rc": rc, "stub": stub[:3000],
                    "stderr": se.getvalue()[-400:]}
             if rc != 0 or not stub.strip():
                 rec["counts"], rec["collision"] = [10 ** 6], False
@@ -304,6 +313,9 @@ def run(ctx):
             vs.append({kk: (fixed if same else rnd.choice(atoms)) for kk in ks})
         if rnd.random() < 0.2:
             vs.append(rnd.choice([1, None, [], {1: 2}]))
+        if rnd.random() < 0.3:
+            # the same one level down: lists of such dicts next to an empty list (the merge recurses into the element types)
+            vs = [[v] if type(v) is dict else v for v in vs] + [[]]
         try:
             impl2 = common.reify_type(shrink_types([get_type(v, k1) for v in vs], k2), ct)
             err = None
